@@ -39,16 +39,16 @@ theorem c03_accepts_partial (w : Wire) (hw : w.WF = true) (hi : w.ignored = 0) (
 
 /-- the same as the predicate the driver evaluates on the real code (`c03.wire`, sentence 1) -/
 theorem c03_accepts_pred (w : Wire) (hw : w.WF = true) (hi : w.ignored = 0) (ha : w.appbits = false)
-    (qs : List UInt8) :
-    Pred.C03.acceptsOK w (Pred.C03.modelObs w.encode qs) = true := by
+    (qs : List UInt8) (prev : Bytes) :
+    Pred.C03.acceptsOK w (Pred.C03.modelObs w.encode qs prev) = true := by
   have hok := wireOk_of_WF w hw ha
   have hu : wireUnread w = 0 := by rw [wireUnread_eq]; exact hi
   have h1 := pktUnmarshal_encode w {} hok hu
+  have h1d := pktUnmarshal_encode w (Pred.C03.dirtyReceiver prev) hok hu
   have h2 := hdrUnmarshal_encode w {} hok
   simp only [hu, Nat.sub_zero] at h2
-  simp only [Pred.C03.acceptsOK, Pred.C03.modelObs, h1, h2, Res.map, Res.coarse, Bool.and_eq_true, beq_iff_eq]
-  simp only [canonP, canonH_hdrOf]
-  simp [Wire.toPacket]
+  simp only [Pred.C03.acceptsOK, Pred.C03.modelObs, h1, h1d, h2, Res.map, Res.coarse, Bool.and_eq_true, beq_iff_eq,
+    canonP_decoded, and_self]
 
 /-- non-vacuity: pads before, between and after two elements, the second one ending flush with a
     word boundary, a whole word of trailing pads, empty payload, RTP padding with non-zero filler -/
@@ -89,8 +89,8 @@ theorem c03_remarshal (r : Packet) (buf : Bytes) (p : Packet) (h : pktUnmarshal 
 
 /-- the same as the predicate the driver evaluates on the real code (`c03.mut`, and the second
     conjunct of `c03.wire`): every byte string -/
-theorem c03_remarshal_pred (buf : Bytes) (qs : List UInt8) :
-    Pred.C03.remarshalOK (Pred.C03.modelObs buf qs) = true := by
+theorem c03_remarshal_pred (buf : Bytes) (qs : List UInt8) (prev : Bytes) :
+    Pred.C03.remarshalOK (Pred.C03.modelObs buf qs prev) = true := by
   simp only [Pred.C03.remarshalOK, Pred.C03.modelObs]
   cases hu : pktUnmarshal {} buf with
   | err e => simp [Res.map, Res.coarse]
@@ -154,8 +154,8 @@ theorem c03_canonical (w : Wire) (h : w.canonical = true) : pktMarshal w.toPacke
 /-- sentence (1) through the public accessors: `GetExtensionIDs` lists the elements in wire order,
     `GetExtension q` returns the first element with id `q` (nil when there is none), for any queries -/
 theorem c03_accessors_pred (w : Wire) (hw : w.WF = true) (hi : w.ignored = 0) (ha : w.appbits = false)
-    (qs : List UInt8) :
-    Pred.C03.accessorsOK w qs (Pred.C03.modelObs w.encode qs) = true := by
+    (qs : List UInt8) (prev : Bytes) :
+    Pred.C03.accessorsOK w qs (Pred.C03.modelObs w.encode qs prev) = true := by
   have hok := wireOk_of_WF w hw ha
   have hu : wireUnread w = 0 := by rw [wireUnread_eq]; exact hi
   have h1 := pktUnmarshal_encode w {} hok hu
@@ -164,11 +164,11 @@ theorem c03_accessors_pred (w : Wire) (hw : w.WF = true) (hi : w.ignored = 0) (h
 
 /-- the whole predicate of `c03.wire` on the model's observation, outside the known-finding regions -/
 theorem c03_wire_pred (w : Wire) (hw : w.WF = true) (hi : w.ignored = 0) (ha : w.appbits = false)
-    (qs : List UInt8) :
-    Pred.C03.wire w w.encode qs (Pred.C03.modelObs w.encode qs) = true := by
-  have h1 := c03_accepts_pred w hw hi ha qs
-  have h2 := c03_remarshal_pred w.encode qs
-  have h3 := c03_accessors_pred w hw hi ha qs
+    (qs : List UInt8) (prev : Bytes) :
+    Pred.C03.wire w w.encode qs (Pred.C03.modelObs w.encode qs prev) = true := by
+  have h1 := c03_accepts_pred w hw hi ha qs prev
+  have h2 := c03_remarshal_pred w.encode qs prev
+  have h3 := c03_accessors_pred w hw hi ha qs prev
   simp only [Pred.C03.wire, h1, h2, h3, hw, Bool.not_true, Bool.false_or, Bool.true_and, Bool.or_eq_true,
     Bool.not_eq_true', Pred.C03.canonOK, beq_iff_eq, Bool.and_self]
   by_cases hc : w.canonical = true
@@ -186,12 +186,12 @@ theorem c03_wire_pred (w : Wire) (hw : w.WF = true) (hi : w.ignored = 0) (ha : w
     and sentence (1) whenever the string is the image of a well-formed description outside the
     known-finding regions (found by the specification's own decoder `Wire.describe` and re-checked
     with `Wire.encode`) -/
-theorem c03_mut_pred (buf : Bytes) (qs : List UInt8)
+theorem c03_mut_pred (buf : Bytes) (qs : List UInt8) (prev : Bytes)
     (hreg : ∀ w, Wire.describe buf = some w → w.ignored = 0 ∧ w.appbits = false) :
-    Pred.C03.mutOK buf qs (Pred.C03.modelObs buf qs) = true := by
+    Pred.C03.mutOK buf qs (Pred.C03.modelObs buf qs prev) = true := by
   simp only [Pred.C03.mutOK]
   cases hd : Wire.describe buf with
-  | none => exact c03_remarshal_pred buf qs
+  | none => exact c03_remarshal_pred buf qs prev
   | some w =>
     obtain ⟨hi, ha⟩ := hreg w hd
     simp only [Wire.describe] at hd
@@ -201,7 +201,7 @@ theorem c03_mut_pred (buf : Bytes) (qs : List UInt8)
       · rename_i hc
         cases hd
         simp only [Bool.and_eq_true, beq_iff_eq] at hc
-        have := c03_wire_pred w hc.1 hi ha qs
+        have := c03_wire_pred w hc.1 hi ha qs prev
         rw [hc.2] at this
         exact this
       · cases hd
@@ -381,12 +381,31 @@ theorem c03_reserved_id_witness : ¬ c03_accepts_full := by
   exact absurd this (by decide)
 
 /-- and the predicate the driver evaluates fails on the model's observation of that input -/
-theorem c03_reserved_id_pred (qs : List UInt8) :
-    Pred.C03.acceptsOK reservedWire (Pred.C03.modelObs reservedWire.encode qs) = false := by
+theorem c03_reserved_id_pred (qs : List UInt8) (prev : Bytes) :
+    Pred.C03.acceptsOK reservedWire (Pred.C03.modelObs reservedWire.encode qs prev) = false := by
   have h := c03_reserved_id_model.1
   simp only [Pred.C03.acceptsOK, Pred.C03.modelObs, h, Res.map, Res.coarse]
   rw [Bool.and_eq_false_iff]; right
   rw [c03_reserved_id_model.2.1]; decide
+
+/-- the packet of the repo's own test TestRFC8285OneByteExtensionTermianteProcessingWhenReservedIDEncountered,
+    which pins the behaviour (`payload := reservedIDPkt[17:]`): it is the image of a well-formed
+    description whose extension block ends at offset 20; the model returns what the test demands,
+    i.e. the three ignored block bytes AA 98 36 in front of the payload BE 88 9E -/
+def pinnedWire : Wire :=
+  { version := 2, marker := true, pt := 96, seq := 0x698f, ts := 0xd9c293da, ssrc := 0x1c642782,
+    ext := some (.oneByte [] (some (0, [0xAA, 0x98, 0x36]))), payload := [0xbe, 0x88, 0x9e] }
+
+theorem c03_reserved_id_pinned :
+    pinnedWire.WF = true ∧ pinnedWire.extEnd = 20 ∧
+    pinnedWire.encode = [0x90, 0xe0, 0x69, 0x8f, 0xd9, 0xc2, 0x93, 0xda, 0x1c, 0x64, 0x27, 0x82,
+                         0xBE, 0xDE, 0x00, 0x01, 0xF0, 0xAA, 0x98, 0x36, 0xbe, 0x88, 0x9e] ∧
+    (pktUnmarshal {} pinnedWire.encode).map (fun p => (p.header.exts, p.payload)) =
+      .ok ([], pinnedWire.encode.drop 17) := by
+  refine ⟨by decide, by decide, by decide, ?_⟩
+  have h := pktUnmarshal_encode_gen pinnedWire {} (by decide)
+  rw [h]
+  decide
 
 /-- the region is exact: on EVERY well-formed image with a reserved id and at least one block byte
     behind it the header is reported to end before the end of the extension block, so sentence (1)
@@ -405,8 +424,8 @@ theorem c03_reserved_region_offset (w : Wire) (hw : w.WF = true) (hi : 0 < w.ign
   refine ⟨_, hdrUnmarshal_encode w r (wireOk_of_WF w hw ha), ?_⟩
   rw [wireUnread_eq]; omega
 
-theorem c03_reserved_region_fails (w : Wire) (hw : w.WF = true) (hi : 0 < w.ignored) (qs : List UInt8) :
-    Pred.C03.acceptsOK w (Pred.C03.modelObs w.encode qs) = false := by
+theorem c03_reserved_region_fails (w : Wire) (hw : w.WF = true) (hi : 0 < w.ignored) (qs : List UInt8) (prev : Bytes) :
+    Pred.C03.acceptsOK w (Pred.C03.modelObs w.encode qs prev) = false := by
   obtain ⟨n, h1, h2⟩ := c03_reserved_region_offset w hw hi {}
   simp only [Pred.C03.acceptsOK, Pred.C03.modelObs, h1, Res.map, Res.coarse]
   rw [Bool.and_eq_false_iff]; right
@@ -480,8 +499,9 @@ theorem c03_appbits_region_decode (w : Wire) (a : UInt8) (items : List Item)
   appbits_decode w a items hext hw ha
 
 /-- … so sentence (1) fails on all of them -/
-theorem c03_appbits_region_fails (w : Wire) (hw : w.WF = true) (ha : w.appbits = true) (qs : List UInt8) :
-    Pred.C03.acceptsOK w (Pred.C03.modelObs w.encode qs) = false :=
-  appbits_fails w hw ha qs
+theorem c03_appbits_region_fails (w : Wire) (hw : w.WF = true) (ha : w.appbits = true) (qs : List UInt8)
+    (prev : Bytes) :
+    Pred.C03.acceptsOK w (Pred.C03.modelObs w.encode qs prev) = false :=
+  appbits_fails w hw ha qs prev
 
 end Rtp.Props.C03
